@@ -883,6 +883,8 @@ class StaticGenerativeFunction(Generic[R], GenerativeFunction[R]):
                 bwd_requests,
             ),
         ) = static_edit_request_transform(self.source)(key, trace, addressed, argdiffs)
+        if not Diff.static_check_tree_diff(retval_diffs):
+            retval_diffs = Diff.no_change(retval_diffs)
 
         def make_bwd_request(
             traces: dict[StaticAddress, Trace[R]],
